@@ -340,3 +340,51 @@ Theorem C09_xfe_fast_reduce_spec : forall a m, Forall canon3 a -> Forall canon3 
   exists r, pdiv_fast_reduce xfe_ops ntt_x intt_x a m = Some r /\ Forall canon3 r /\ is_rem k3_field (map denX a) (map denX m) (map denX r).
 Proof. exact xfe_fast_reduce_spec. Qed.
 Print Assumptions C09_xfe_fast_reduce_spec.
+
+(* ---------------------------------------------------------------- clean_divide: the full statement (proofs/XFieldCleanDivide.v)
+   The zero-free NTT arm: given a clean division a1 = q0 * d1 (after the removal of the root 0), the two codewords are
+   computed without panic (lift into XFieldElement, composition with the coset offset x = [0,1,0], padding to
+   next_power_of_two(deg a1 + 1), ntt), and whenever no divisor evaluation is zero, batch inversion, the point-wise product,
+   intt, the unscaling by x^-1 and every `unlift().unwrap()` succeed and the result denotes EXACTLY q0. *)
+From TF Require Import XFieldCleanDivide.
+Theorem C09_clean_divide_ntt_arm : forall a1 d1 q0, Forall canon a1 -> Forall canon d1 -> ~ pzero fp_field (map bden d1) ->
+  peq fp_field (map bden a1) (pmul fp_field q0 (map bden d1)) -> pdeg fp_field (map bden a1) < 2 ^ 31 ->
+  exists av dv, pdiv_clean_codewords bfe_ops xfe_ops xb_act pdiv_offset ntt_x a1 d1 = Some (av, dv) /\
+    (existsb (fis_zero xfe_ops) dv = false ->
+     exists inv qv oi q, xbatch_inversion dv = Some inv /\ intt_x (map2 xmul av inv) = Some qv /\
+                         xinverse pdiv_offset = Some oi /\ map_opt xunlift (poly_scale xfe_ops qv oi) = Some q /\
+                         Forall canon q /\ peq fp_field (map bden q) q0).
+Proof. exact ntt_arm_spec. Qed.
+Print Assumptions C09_clean_divide_ntt_arm.
+
+(* All arms together, for the code of the current tree (pdiv_clean_divide = both repairs): EVERY clean division returns the
+   exact quotient - every cutoff (the production 1 << 9 and the cfg(test) 0 included), with and without debug assertions,
+   divisors with the root 0, divisors vanishing on the evaluation coset, the zero dividend, stored leading zeros.
+   Size bound: deg a < 2^31, i.e. the transform length next_power_of_two(deg + 1) <= 2^31 is one that `ntt` accepts.
+   (The placeholder C09_clean_divide_full above asks for zlen a < 2^32; for 2^31 <= deg a the transform length is 2^32,
+   which `ntt` rejects - `u32::try_from(x.len())` -, so that bound is too generous by one bit; C09_clean_divide_full_2p31
+   is the placeholder's statement with the bound 2^31.) *)
+Theorem C09_clean_divide : forall cutoff dbg a d q0, Forall canon a -> Forall canon d -> ~ pzero fp_field (map bden d) ->
+  peq fp_field (map bden a) (pmul fp_field q0 (map bden d)) -> poly_degree bfe_ops a < 2 ^ 31 ->
+  exists q, pdiv_clean_divide cutoff dbg a d = Some q /\ Forall canon q /\ peq fp_field (map bden q) q0.
+Proof. exact clean_divide_full. Qed.
+Print Assumptions C09_clean_divide.
+Theorem C09_clean_divide_full_2p31 :
+  forall cutoff dbg a d q0, (cutoff = CLEAN_DIVIDE_CUTOFF_THRESHOLD_PROD \/ cutoff = CLEAN_DIVIDE_CUTOFF_THRESHOLD_TEST) ->
+  Forall canon a -> Forall canon d -> ~ pzero fp_field (map bden d) ->
+  peq fp_field (map bden a) (pmul fp_field q0 (map bden d)) -> zlen a <= 2 ^ 31 ->
+  exists q, pdiv_clean_divide cutoff dbg a d = Some q /\ Forall canon q /\ peq fp_field (map bden q) q0.
+Proof.
+  exact (fun cutoff dbg a d q0 _ Ha Hd NZ E Hl =>
+           clean_divide_full cutoff dbg a d q0 Ha Hd NZ E (Z.lt_le_trans _ _ _ (degree_lt_len bfe_ops a) Hl)).
+Qed.
+Print Assumptions C09_clean_divide_full_2p31.
+(* the hypotheses are satisfiable, on both sides of the fallback: the repaired witnesses above (divisor vanishing on the
+   coset), and a division that goes through the zero-free arm under the cfg(test) cutoff (the quotient 5 + 7 X comes back
+   with the padding of the transform length 4 as stored leading zeros) *)
+Example C09_clean_divide_ex :
+  pdiv_vanishes_on_coset (poly_mul bfe_ops (map bfe_new [1; 2; 3]) (map bfe_new [5; 7])) (map bfe_new [1; 2; 3]) = Some false /\
+  option_map (map bfe_value)
+    (pdiv_clean_divide CLEAN_DIVIDE_CUTOFF_THRESHOLD_TEST false
+       (poly_mul bfe_ops (map bfe_new [1; 2; 3]) (map bfe_new [5; 7])) (map bfe_new [1; 2; 3])) = Some [5; 7; 0; 0].
+Proof. split; vm_compute; reflexivity. Qed.
